@@ -374,3 +374,27 @@ def fixed_flag_survives_faults(ctx: Context, rule_id: str, ra) -> None:
                 "cannot end as fixed",
                 steps,
             )
+
+
+def optional_dereferences(ctx: Context, rule_id: str, title: str, scope, floor: int) -> None:
+    """No parameter / local that may be None is dereferenced without a guard on some path
+    (may-be-None dataflow over the CFG, sa/nonnull.py): such a path ends in TypeError /
+    AttributeError inside the parser or a rule, i.e. in an internal error instead of a result."""
+    from sa.nonnull import optional_dereferences as analyse
+    from sa.util import func_key, where
+
+    prog = ctx.prog
+    rule = ctx.rule(rule_id, title, floor)
+    functions = 0
+    for func in sorted(prog.functions.values(), key=lambda f: f.qualname):
+        if not scope(func.module.rel):
+            continue
+        reports, guarded = analyse(prog, func)
+        if guarded or reports:
+            functions += 1
+        for node, name, how in reports:
+            rule.fail(f"{func.short}: {name} [{how.split(' of ')[0]}]", where(func, node), f"'{name}' may be None here ({how}) on some path through {func.short}: the document that takes that path ends in a TypeError / AttributeError instead of a result")
+        if guarded > len(reports):
+            rule.ok(f"{func.short}", f"{guarded - len(reports)} dereference(s) of names that may be None elsewhere in the function, each guarded on every path")
+            rule.obligations += guarded - len(reports) - 1
+    rule.note(f"{functions} functions hold a name that may be None; every dereference of such a name was checked on every path")
